@@ -103,9 +103,10 @@ func (tg *TCPGroup) Listen(proxyName string, group string, groupKey string, addr
 			return
 		}
 		verifhook.At("server.group.tcp.afterAcquire", group, proxyName, realPort)
-		tcpLn, errRet := net.Listen("tcp", net.JoinHostPort(addr, strconv.Itoa(port)))
+		tcpLn, errRet := net.Listen("tcp", net.JoinHostPort(addr, strconv.Itoa(realPort)))
 		if errRet != nil {
 			err = errRet
+			tg.ctl.portManager.Release(realPort)
 			return
 		}
 		ln = newTCPGroupListener(group, tg, tcpLn.Addr())
